@@ -24,8 +24,8 @@ CONSTANTS
     Cands,      \* [Plain -> Seq(DoFiles)]  candidate .do files, best first
     Rules,      \* [DoFiles -> Seq([Plain -> Seq(Op)])]  rule text per version
     InitFiles,  \* files existing initially (sources and .do files)
-    J,          \* -j
-    Cmds,       \* commands the user may run: [kind, targs, keep]
+    J,          \* unused default for -j (each command record carries its own j)
+    Cmds,       \* commands the user may run: [kind, targs, keep, j]
     UserFiles,  \* files the user may write by hand
     RmFiles,    \* files the user may remove
     DoEdits,    \* .do files the user may edit / remove / add
@@ -63,7 +63,7 @@ vars == <<fs, tmp, clock, w, runid, locks, procs, cmd, hist, ran, ncmds, pool, g
 NoPid == <<>>
 Top   == <<"c">>
 
-Idle == [kind |-> "idle", targs |-> <<>>, keep |-> FALSE]
+Idle == [kind |-> "idle", targs |-> <<>>, keep |-> FALSE, j |-> 1]
 
 FileRec(n, k, c, own) == [ex |-> TRUE, val |-> [n |-> n, k |-> k, v |-> c, d |-> <<>>],
                           ver |-> c, own |-> own]
@@ -211,7 +211,8 @@ StartBuild(c) ==
                       [ProcDefaults EXCEPT !.kind = "redo", !.pc = "pass1", !.rid = runid + 1,
                                            !.forced = (c.kind = "redo"), !.keep = c.keep,
                                            !.targs = c.targs, !.tok = 1])
-    /\ pool' = J - 1
+    \* only `redo -jN` creates more than one token; redo-ifchange at top level runs -j1
+    /\ pool' = IF c.kind = "redo" THEN c.j - 1 ELSE 0
     /\ gh' = [gh EXCEPT !.fails = {}]
     /\ UNCHANGED <<fs, tmp, clock, w, locks, hist>>
 
@@ -220,9 +221,10 @@ EndBuild ==
     /\ DOMAIN procs = {Top} /\ procs[Top].pc = "done"
     /\ procs' = << >>
     /\ cmd' = Idle
-    /\ hist' = Append(hist, [a |-> "cmd", kind |-> cmd.kind, targs |-> cmd.targs, keep |-> cmd.keep,
+    /\ hist' = Append(hist, [a |-> "cmd", kind |-> cmd.kind, targs |-> cmd.targs, keep |-> cmd.keep, j |-> cmd.j,
                              rc |-> procs[Top].rc, ran |-> ran, snap |-> Snapshot])
-    /\ UNCHANGED <<fs, tmp, clock, w, runid, locks, ran, ncmds, pool, gh>>
+    /\ ran' = << >>
+    /\ UNCHANGED <<fs, tmp, clock, w, runid, locks, ncmds, pool, gh>>
 
 \* redo-ood / redo-targets / redo-sources: read-only, but allocate a run id.
 QueryOut(kind, rid) ==
